@@ -75,6 +75,22 @@ def run(tier, seed):
                     exp.append(comb_((1 + 2 * e_) / (1 + F(1, 2) * e_), 3 / (1 + F(1, 4) * e_ ** 2)))
                 return len(res) == 3 and all(same(u, v) for u, v in zip(res, exp)), "%s response over a %s of frequencies: %d values" % (nm, kind, len(res))
             R.guard("%s-response-per-element-over-one-shot-containers" % nm, {"kind": kind}, multi)
+    # a filter list modified in place (same length) answers for its current content
+    for cls, comb_, nm in ((CascadeFilter, lambda a, b: a * b, "cascade"), (ParallelFilter, lambda a, b: a + b, "parallel")):
+        def inplace():
+            g1, g2, g3 = ZFilter([1, 2], [1, F(1, 2)]), ZFilter([3], [1, 0, F(1, 4)]), ZFilter([F(1, 2), 0, 1])
+            fl = cls(g1, g2)
+            r = lambda g: tf(list(g.numerator), list(g.denominator))
+            first = fl.freq_response(W)
+            if not same(first, comb_(r(g1), r(g2))):
+                return False, "%s response before the modification" % nm
+            fl[1] = g3
+            second = fl.freq_response(W)
+            if not same(second, comb_(r(g1), r(g3))):
+                return False, "%s response after replacing an item in place still uses the old filter" % nm
+            fl.pop(); fl.append(g2)
+            return same(fl.freq_response(W), comb_(r(g1), r(g2))), "%s response after pop + append" % nm
+        R.guard("%s-response-follows-in-place-modification" % nm, {}, inplace)
     # nan where the denominator vanishes (numeric)
     lazy_filters.complex_exp = cmath.exp
     g = ZFilter([1], [1, -1])
@@ -88,6 +104,16 @@ def run(tier, seed):
         c = Sym.var("c")
         R.guard("dft-is-the-defining-sum", {"L": L}, lambda: (same(dft(x, [W], normalize=False)[0], sum((xn * E ** n for n, xn in enumerate(x)), 0)) and
                                                              same(dft(x, [W])[0], sum((xn * E ** n for n, xn in enumerate(x)), 0) / L), "dft"))
+        def several():
+            res = dft(x, [Omega("G"), W, Omega("K"), W], normalize=False)
+            exp = [sum((xn * Sym.var(nm) ** n for n, xn in enumerate(x)), 0) for nm in ("G", "E", "K", "E")]
+            return len(res) == 4 and all(same(u, v) for u, v in zip(res, exp)), "dft over several frequencies: every bin is its own defining sum"
+        R.guard("dft-is-the-defining-sum", {"L": L, "frequencies": 4}, several)
+        def several_gen():
+            res = list(dft(x, (w for w in [Omega("K"), Omega("G")]), normalize=True))
+            exp = [sum((xn * Sym.var(nm) ** n for n, xn in enumerate(x)), 0) / L for nm in ("K", "G")]
+            return len(res) == 2 and all(same(u, v) for u, v in zip(res, exp)), "dft over a generator of frequencies"
+        R.guard("dft-is-the-defining-sum", {"L": L, "frequencies": "generator"}, several_gen)
         R.guard("dft-is-linear", {"L": L}, lambda: (same(dft([c * u + v for u, v in zip(x, y)], [W], normalize=False)[0], c * dft(x, [W], normalize=False)[0] + dft(y, [W], normalize=False)[0]), "linearity"))
         lazy_analysis.cexp = cmath.exp
         xs = [F(i * i - 2) for i in range(L)]
